@@ -13,7 +13,8 @@
    Not covered here: RLE row tables inside channel data (opaque bytes in this model; checked by the
    Python twin of the walker on every written file, and proved for the codec in C04/C05), and the
    plane count of the merged image produced by PSDImage.save() (C17). *)
-From PsdV Require Import Base.Prelude Psd.Codec Psd.Model Psd.Proofs Psd.Walk Psd.Layout Psd.WalkProofs.
+From PsdV Require Import Base.Prelude Psd.Codec Psd.Model Psd.Proofs Psd.Walk Psd.Layout Psd.WalkProofs
+  Psd.Leaf Psd.LeafProofs Psd.Descriptor Psd.DescriptorProofs Psd.Effects Psd.EffectsProofs.
 From Coq Require Import ZArith List Bool Lia.
 Import ListNotations.
 Open Scope Z_scope.
@@ -94,6 +95,18 @@ Proof.
       wtruth_layer_info, wtruth_glmi, wtruth_lami.
 Qed.
 Print Assumptions written_truthful_elements.
+
+(* ... the modelled payload classes: value elements, section divider, sheet colour, reference point, colour, ... and
+   the whole descriptor family at any nesting depth, DescriptorBlock(2) with its padding *)
+Theorem written_truthful_payloads :
+  (forall pad l, wtruth (write_leaf pad l)) /\
+  (forall t d, wtruth (write_dval t d)) /\ (forall t pad b, wtruth (write_dblock t pad b)) /\
+  (forall e, wtruth (write_effect e)) /\ (forall l, wtruth (write_effects l)).
+Proof.
+  split; [exact wtruth_leaf|]. split; [exact wtruth_dval|]. split; [exact wtruth_dblock|].
+  split; [exact wtruth_effect|exact wtruth_effects].
+Qed.
+Print Assumptions written_truthful_payloads.
 
 (* the combinators themselves: any composition of truthful writers is truthful *)
 Theorem written_truthful_combinators :
